@@ -222,11 +222,13 @@ TickOp(L, far) == [j \in CIDs |-> IF L[j] # Nil /\ L[j].st # "free" /\ (far \/ ~
 
 \* dhcp4.go Config.New on a lease file whose content is the set of records F (loadByteArray keeps
 \* allocated leases with a client id and an address inside the home LAN), fresh session
-LoadOp(F) == [j \in CIDs |->
+LoadOpS(F, me) == [j \in CIDs |->
    IF \E r \in F : r.k = j /\ InNet(1, r.ip)
    THEN LET r == CHOOSE x \in F : x.k = j /\ InNet(1, x.ip)
-        IN [st |-> "allocated", mac |-> r.mac, ip |-> r.ip, offer |-> NoA, xid |-> r.xid, net |-> 1, exp |-> TRUE]
+        IN [st |-> "allocated", mac |-> r.mac, ip |-> r.ip, offer |-> NoA, xid |-> r.xid,
+            net |-> IF IsCap(me, r.mac) /\ InNet(2, r.ip) THEN 2 ELSE 1, exp |-> TRUE]     \* net2 only for a captured MAC with a net2 address
    ELSE Nil]
+LoadOp(F) == LoadOpS(F, InitMent)
 
 St == [lease |-> lease, next |-> next, file |-> file, hosts |-> hosts, ment |-> ment]
 \* the frame of a client message goes through Session.Parse first: a source address inside the LAN
@@ -456,6 +458,26 @@ RestartR == /\ acked' = [j \in CIDs |-> IF acked[j] # Nil /\ (acked[j].cap \/ ~I
                                                       !.dmac = IF lease'[j] # Nil THEN lease'[j].mac ELSE NoMac, !.dcap = FALSE]]
             /\ verdict' = RestartVerdict(lease')
 Restart == RestartM /\ RestartR
+
+\* a new handler on the same lease file and the SAME session (capture flags and tracked hosts survive)
+ReloadM == /\ lease' = LoadOpS(file, ment) /\ next' = [n \in {1, 2} |-> First(n)]
+           /\ file' = Saved(LoadOpS(file, ment)) /\ Quiet /\ UNCHANGED <<hosts, ment>>
+ReloadR == /\ acked' = [j \in CIDs |-> IF acked[j] # Nil /\ ~InNet(1, acked[j].ip) THEN Nil ELSE acked[j]]
+           /\ obs' = [j \in CIDs |-> [obs[j] EXCEPT !.offer = NoA, !.xid = NoX, !.old = FALSE, !.void = FALSE,
+                                                     !.last = IF lease'[j] # Nil THEN lease'[j].ip ELSE NoA,
+                                                     !.dur = IF lease'[j] # Nil THEN lease'[j].ip ELSE NoA,
+                                                     !.dmac = IF lease'[j] # Nil THEN lease'[j].mac ELSE NoMac,
+                                                     !.dcap = lease'[j] # Nil /\ IsCap(ment, lease'[j].mac)]]
+           /\ verdict' = RestartVerdict(lease')
+Reload == ReloadM /\ ReloadR
+
+\* process restart with a CHANGED configuration (another DNS server) on the surviving lease file: dhcp4.go New()
+\* resets the lease table when the configuration changed; from then on replies carry the new configuration
+\* (the abstract value "cfg" of the DNS option always means: the currently configured server)
+ReconfM == /\ lease' = [j \in CIDs |-> Nil] /\ next' = [n \in {1, 2} |-> First(n)] /\ file' = {}
+           /\ hosts' = InitHosts /\ ment' = InitMent /\ Quiet
+ReconfR == acked' = [j \in CIDs |-> Nil] /\ obs' = [j \in CIDs |-> NoObs] /\ verdict' = {}
+Reconf == ReconfM /\ ReconfR
 
 Init ==
   /\ lease = [j \in CIDs |-> Nil] /\ next = [n \in {1, 2} |-> First(n)]
